@@ -199,6 +199,10 @@ def mismatch(obs, exp):
     for k in exp.get("event_has", []):
         if k not in evo:
             out.append(f"event lacks .{k}")
+    for k, val in exp.get("if_compiled_event_eq", {}).items():
+        got = evo.get(k)
+        if got != val:
+            out.append(f"the program was accepted and the read-only location .{k} changed: {got!r} (was {val!r})")
     for k, val in exp.get("event_eq", {}).items():
         got = evo.get(k)
         if isinstance(got, dict):
